@@ -263,3 +263,18 @@ package asp
 //@   opt panics=allowed
 //@   invariant "loop#1" skipping_blank_lines: lexAt(l) && (l.next.Type != EOF ==> lexOK(l))
 //@   ensures well_formed [C19]: lexAt(result) && (result.next.Type != EOF ==> lexOK(result))
+
+// ---------------------------------------------------------------------------------------------
+// Literals evaluate to fresh values (C16, C17)
+//
+// The peephole optimiser stores the value of a constant expression in the AST (which is cached and shared by
+// every package that subincludes the file). Lists are mutable, so the value handed out for a constant list
+// literal must be a copy made for this evaluation, never the object stored in the AST.
+//@ func (scope).interpretExpression
+//@   requires s != nil && expr != nil
+//@   opt nopanic=off
+//@   opt panics=allowed
+//@   opt inline=off
+//@   opt precall=off
+//@   ensures constants_are_handed_out_as_copies [C16 C17]: old(expr.optimised != nil && expr.optimised.Constant != nil) ==> called("freshConstant")
+//@   callsite freshConstant of_the_stored_constant [C16 C17]: arg_c == expr.optimised.Constant
